@@ -558,3 +558,115 @@ Example stop_saved_ip_is_trampoline_refuted :
   option_map snd (exit_stop s) = Some (Real 100) /\
   match rs s with f :: _ => fip f = Tramp KM | [] => False end.
 Proof. vm_compute. split; reflexivity. Qed.
+
+(* ------------------------------------------------------------------ --estimate-return: nothing is hijacked *)
+Lemma run_ops_est_app s a b :
+  run_ops_est s (a ++ b) =
+  let '(s1, u1) := run_ops_est s a in let '(s2, u2) := run_ops_est s1 b in (s2, u1 ++ u2).
+Proof.
+  revert s. induction a as [|o a IH]; intro s; cbn [app run_ops_est].
+  - now destruct (run_ops_est s b).
+  - destruct (run_op_est s o) as [s1 u]. rewrite IH.
+    destruct (run_ops_est s1 a) as [s2 us]. now destruct (run_ops_est s2 b).
+Qed.
+
+(* the entry hooks and the cygprof exit never write a return-address slot *)
+Lemma run_op_est_mem s o : match o with OPush _ _ => True | _ => mem (fst (run_op_est s o)) = mem s end.
+Proof.
+  destruct o as [l a|h l| |l|l]; cbn; auto.
+  - destruct h as [|r| |]; reflexivity.
+  - unfold exit_cyg. destruct (rs s) as [|f t]; auto. destruct (fkind f); reflexivity.
+Qed.
+
+Definition PE (c : call) : Prop := forall d s,
+  exists s' outs, run_ops_est s (body d c) = (s', outs) /\
+                  targets outs = map Some (native_body c) /\
+                  (forall l, l <= d -> mem s' l = mem s l).
+
+Definition QE (c : call) : Prop := forall d s,
+  exists s' outs, run_ops_est s (full d c) = (s', outs) /\
+                  targets outs = map Some (native c) /\
+                  (forall l, l < d -> mem s' l = mem s l).
+
+Lemma QE_of_PE c : PE c -> QE c.
+Proof.
+  intros HP d s. unfold full. cbn [run_ops_est run_op_est].
+  set (s1 := mkSt (upd (mem s) d (Real (ra_of c))) (rs s)).
+  destruct (HP d s1) as (s2 & outs & Hr & Ht & Hm).
+  rewrite run_ops_est_app, Hr. cbn [run_ops_est run_op_est].
+  exists s2. eexists. split; [reflexivity|]. split.
+  - change (UNone :: outs ++ [URet 0 (mem s2 d)]) with ([UNone] ++ outs ++ [URet 0 (mem s2 d)]).
+    rewrite !targets_app, Ht. unfold native. rewrite map_app. cbn.
+    rewrite Hm by lia. unfold s1. cbn. now rewrite upd_same.
+  - intros l Hl. rewrite Hm by lia. unfold s1. cbn. now rewrite upd_other by lia.
+Qed.
+
+Lemma kids_run_est kids : Forall QE kids -> forall d s,
+  exists s' outs,
+    run_ops_est s (concat (map (fun k => OPush (S d) (ra_of k) :: body (S d) k ++ [ORet (S d)]) kids)) = (s', outs) /\
+    targets outs = map Some (concat (map (fun k => native_body k ++ [Real (ra_of k)]) kids)) /\
+    (forall l, l <= d -> mem s' l = mem s l).
+Proof.
+  induction 1 as [|k t Hk _ IH]; intros d s.
+  - exists s, []. cbn. auto.
+  - cbn [map concat]. rewrite run_ops_est_app.
+    destruct (Hk (S d) s) as (s1 & o1 & Hr1 & Ht1 & Hm1). unfold full in Hr1. rewrite Hr1.
+    destruct (IH d s1) as (s2 & o2 & Hr2 & Ht2 & Hm2). rewrite Hr2.
+    exists s2, (o1 ++ o2). split; [reflexivity|]. split.
+    + rewrite targets_app, Ht1, Ht2. unfold native. now rewrite <- map_app.
+    + intros l Hl. rewrite Hm2, Hm1 by lia. reflexivity.
+Qed.
+
+Lemma tails_run_est tails : Forall PE tails -> forall d s,
+  exists s' outs,
+    run_ops_est s (concat (map (body d) tails)) = (s', outs) /\
+    targets outs = map Some (concat (map native_body tails)) /\
+    (forall l, l <= d -> mem s' l = mem s l).
+Proof.
+  induction 1 as [|k t Hk _ IH]; intros d s.
+  - exists s, []. cbn. auto.
+  - cbn [map concat]. rewrite run_ops_est_app.
+    destruct (Hk d s) as (s1 & o1 & Hr1 & Ht1 & Hm1). rewrite Hr1.
+    destruct (IH d s1) as (s2 & o2 & Hr2 & Ht2 & Hm2). rewrite Hr2.
+    exists s2, (o1 ++ o2). split; [reflexivity|]. split.
+    + rewrite targets_app, Ht1, Ht2. now rewrite <- map_app.
+    + intros l Hl. rewrite Hm2, Hm1 by lia. reflexivity.
+Qed.
+
+Theorem body_correct_est : forall c, PE c.
+Proof.
+  induction c as [ra0 h kids tails IHk IHt] using call_ind'.
+  assert (HQ : Forall QE kids) by (eapply Forall_impl; [apply QE_of_PE | exact IHk]).
+  intros d s. cbn [body native_body]. cbn [run_ops_est].
+  pose proof (run_op_est_mem s (OEnter h d)) as Hm0. cbn beta iota in Hm0.
+  destruct (run_op_est s (OEnter h d)) as [s1 u1] eqn:E1. cbn [fst] in Hm0.
+  assert (Hu1 : u1 = UNone) by (destruct h as [|r| |]; cbn in E1; inversion E1; reflexivity).
+  subst u1.
+  destruct (kids_run_est kids HQ d s1) as (s2 & o2 & Hr2 & Ht2 & Hm2).
+  rewrite run_ops_est_app, Hr2.
+  set (cx := match h with HC => [OCygExit] | _ => [] end).
+  destruct (run_ops_est s2 cx) as [s3 o3] eqn:E3.
+  assert (H3 : mem s3 = mem s2 /\ targets o3 = []).
+  { unfold cx in E3. destruct h as [|r| |]; cbn in E3; inversion E3; subst; auto.
+    split; [|reflexivity]. pose proof (run_op_est_mem s2 OCygExit) as Hx. cbn in Hx. exact Hx. }
+  destruct H3 as [Hm3 Ht3].
+  rewrite run_ops_est_app, E3.
+  destruct (tails_run_est tails IHt d s3) as (s4 & o4 & Hr4 & Ht4 & Hm4). rewrite Hr4.
+  exists s4. eexists. split; [reflexivity|]. split.
+  - change (UNone :: o2 ++ o3 ++ o4) with ([UNone] ++ o2 ++ o3 ++ o4).
+    rewrite !targets_app, Ht2, Ht3, Ht4, map_app. reflexivity.
+  - intros l Hl. rewrite Hm4 by lia. rewrite Hm3. rewrite Hm2 by lia. now rewrite Hm0.
+Qed.
+
+(* under --estimate-return every activation of EVERY call tree (any hooks, any triggers) returns where the
+   untraced program returns, from any state, and no outer return slot changes *)
+Theorem estimate_return_is_native : forall c d s,
+  exists s' outs, run_ops_est s (full d c) = (s', outs) /\
+                  targets outs = map Some (native c) /\
+                  (forall l, l < d -> mem s' l = mem s l).
+Proof. intros c. apply QE_of_PE, body_correct_est. Qed.
+
+Example nv_estimate_return :
+  targets (snd (run_ops_est st0 (full 1 nv_tree))) = map Some (native nv_tree) /\
+  length (rs (fst (run_ops_est st0 (full 1 nv_tree)))) = 2.
+Proof. vm_compute. split; reflexivity. Qed.
